@@ -661,6 +661,7 @@ def pl_subsample_case(v, N, which, opts):
     asserts.append(("subsample/verdict", v.iff(o["kind"] == "accept", z3.Not(zor_(viol)))))
     if o["kind"] == "accept" and H._is_pl(o["out"]):
         asserts.append(("subsample/returns_whole_object", pl_equal(v, o["out"], snap, same_class=False)))
+        asserts.append(("kind_preserved", v.holds(same_kind(o["out"], df))))
     return dict(obs=o, asserts=asserts, facts=dict(kind=o["kind"], reason=o.get("reason"), _msg=o.get("msg"), which=list(which)))
 
 
@@ -934,7 +935,8 @@ def lazy_cases(tier):
 def pl_regex_case(v, N, opts):
     """a regex column governing two float columns, with a default / coercion / nullable flag (C03 fixpoint, C04, C06 on polars)"""
     lazyframe = bool(opts.get("lazyframe"))
-    df = v.plframe([("x_1", "float"), ("x_2", "float"), ("b", "int", False)], N, lazy=lazyframe, nan=bool(opts.get("nan")))
+    xk = "int" if opts.get("coerce") else "float"  # coerce: the matched columns hold integers and are declared float
+    df = v.plframe([("x_1", xk), ("x_2", xk), ("b", "int", False)], N, lazy=lazyframe, nan=bool(opts.get("nan")))
     snap = pl_snapshot(df)
     lo = v.int("aA")
     nullable = v.bool("nullable")
@@ -943,8 +945,9 @@ def pl_regex_case(v, N, opts):
     def mk(parsing):
         with warnings.catch_warnings():
             warnings.simplefilter("ignore")
-            return ppl.DataFrameSchema({"^x_[0-9]$": ppl.Column(float, Check.ge(lo), regex=True, nullable=nullable, default=default if parsing else None),
-                                        "b": ppl.Column(int)}, strict=opts.get("strict", False))
+            return ppl.DataFrameSchema({"^x_[0-9]$": ppl.Column(float, Check.ge(lo), regex=True, nullable=nullable, default=default if parsing else None,
+                                                                coerce=parsing and opts.get("coerce") == "col"),
+                                        "b": ppl.Column(int)}, strict=opts.get("strict", False), coerce=parsing and opts.get("coerce") == "schema")
 
     schema = mk(True)
 
@@ -958,6 +961,13 @@ def pl_regex_case(v, N, opts):
     o = H.outcome(lambda: run(df, schema))
     asserts = [("channel", v.holds(channel_ok(o))), ("input_unchanged", pl_equal(v, df, snap)), ("config_unchanged", v.holds(tmpl.config_fingerprint() == cfg0))]
     facts = dict(kind=o["kind"], reason=o.get("reason"), _msg=o.get("msg"))
+    if opts.get("coerce"):
+        # integers always convert: the verdict is that of the converted columns (the pandas backend's, C08)
+        cells = [v.cells(f"x_{k}_", "int", N, True) for k in (1, 2)]
+        ok = z3.And(*[z3.And(z3.Or(v.z(nullable) if default is None else T, z3.Not(ns[i])),
+                             z3.Or(ns[i], z3.ToReal(xs[i]) >= z3.ToReal(v.z(lo))) if default is None else z3.If(ns[i], v.z(default) >= v.z(lo), z3.ToReal(xs[i]) >= z3.ToReal(v.z(lo))))
+                      for xs, ns in cells for i in range(N)]) if N else T
+        asserts.append(("verdict", v.iff(o["kind"] == "accept", ok)))
     if o["kind"] == "accept" and H._is_pl(o["out"]):
         out = o["out"]
         asserts.append(("kind_preserved", v.holds(same_kind(out, df))))
@@ -975,7 +985,8 @@ def pl_regex_case(v, N, opts):
 def regex_cases(tier):
     out = []
     N = 2
-    for o in (dict(), dict(default=True), dict(default=True, nan=True), dict(lazy=True), dict(default=True, lazyframe=True), dict(strict=True)):
+    for o in (dict(), dict(default=True), dict(default=True, nan=True), dict(lazy=True), dict(default=True, lazyframe=True), dict(strict=True),
+              dict(coerce="col"), dict(coerce="schema"), dict(coerce="col", lazy=True)):
         out.append((f"PL/RX/" + ("/".join(f"{k}={x}" for k, x in o.items()) or "plain") + f"/N={N}", pl_regex_case, (N, o)))
     return out
 
@@ -1018,4 +1029,5 @@ def subsample_cases(tier):
     for N in (2, 3):
         for which in (["sample"], ["head", "sample"], ["head", "tail", "sample"]):
             out.append((f"PL/SUB/{'+'.join(which)}/lazyframe=0/N={N}", pl_subsample_case, (N, which, {})))
+    out.append(("PL/SUB/sample/lazyframe=1/N=2", pl_subsample_case, (2, ["sample"], dict(lazyframe=True))))
     return out
